@@ -249,6 +249,10 @@ pub trait Kind<'s>: Input<'s, Token = Self::Tok, Span = Self::Spn> + Sized + 's 
     fn p_not<R: Er<'s, Self>>(p: BP<'s, Self, R>) -> BP<'s, Self, R>;
     fn p_lazy<R: Er<'s, Self>>(p: BP<'s, Self, R>) -> BP<'s, Self, R>;
     fn p_nested<R: Er<'s, Self>>(a: BP<'s, Self, R>, open: char, close: char, others: &[(char, char)], tag: u32) -> BP<'s, Self, R>;
+    /// `a.nested_in(group)`: only the token-tree kind has group tokens (C16)
+    fn p_nested_in<R: Er<'s, Self>>(_a: BP<'s, Self, R>) -> BP<'s, Self, R> {
+        unreachable!("nested_in needs the token-tree input kind")
+    }
 }
 
 #[derive(Clone, Copy, Debug, PartialEq, Eq)]
@@ -757,6 +761,57 @@ impl<'s> Kind<'s> for MapSpanSlice<'s> {
     }
     fn slice_node_explicit<R: Er<'s, Self>>(p: BP<'s, Self, R>) -> BP<'s, Self, R> {
         p.map_with(|_v, e| tok_slice_val::<char>(e.slice())).boxed()
+    }
+}
+
+// ---------------------------------------------------------------------------------------------
+// token trees (C16): a token is a leaf or a group that owns its children (with their spans) and the
+// eoi span of the inner input
+
+#[derive(Clone, Debug, PartialEq)]
+pub enum TT {
+    Leaf(char),
+    Group(Vec<(TT, SimpleSpan)>, SimpleSpan),
+}
+impl Tk for TT {
+    fn from_char(c: char) -> Self {
+        TT::Leaf(c)
+    }
+    fn to_char(&self) -> char {
+        match self {
+            TT::Leaf(c) => *c,
+            TT::Group(..) => GOPEN,
+        }
+    }
+}
+pub type TTPair = (TT, SimpleSpan);
+pub type TTIn<'s> = chumsky::input::MappedInput<TT, SimpleSpan, &'s [TTPair], fn(&'s TTPair) -> (&'s TT, &'s SimpleSpan)>;
+fn tt_ref<'s>(t: &'s TTPair) -> (&'s TT, &'s SimpleSpan) {
+    (&t.0, &t.1)
+}
+pub fn tt_input<'s>(toks: &'s [TTPair], eoi: SimpleSpan) -> TTIn<'s> {
+    toks.map(eoi, tt_ref as fn(&'s TTPair) -> (&'s TT, &'s SimpleSpan))
+}
+pub fn tt_from_nodes(nodes: &[TNode]) -> Vec<TTPair> {
+    nodes
+        .iter()
+        .map(|n| {
+            let t = match &n.tok {
+                TreeTok::Leaf(c) => TT::Leaf(*c),
+                TreeTok::Group(kids, eoi) => TT::Group(tt_from_nodes(kids), SimpleSpan::from(eoi.0..eoi.1)),
+            };
+            (t, SimpleSpan::from(n.span.0..n.span.1))
+        })
+        .collect()
+}
+impl<'s> Kind<'s> for TTIn<'s> {
+    type Tok = TT;
+    type Spn = SimpleSpan;
+    no_slices!();
+    value_kind_prims!();
+    fn p_nested_in<R: Er<'s, Self>>(a: BP<'s, Self, R>) -> BP<'s, Self, R> {
+        let group = chumsky::select_ref! { TT::Group(kids, eoi) => tt_input(kids.as_slice(), *eoi) };
+        a.nested_in(group).boxed()
     }
 }
 
@@ -1400,6 +1455,10 @@ impl<'s, I: Kind<'s>, R: Er<'s, I>> Bld<'s, I, R> {
             Lazy(a) => {
                 let a = self.build(a);
                 I::p_lazy::<R>(a)
+            }
+            NestedIn(a) => {
+                let a = self.build(a);
+                I::p_nested_in::<R>(a)
             }
             StPush(a, t) => {
                 let t = *t;
